@@ -6,3 +6,23 @@ package push
 
 //@ func (*socket).GetOption
 //@   ensures name == protocol.OptionRaw ==> isnil(result1) && result0 == iface(false)
+
+// ---- generated wrapper contracts (tools/gen_wrapper_contracts.py) ----
+//@ func NewSocket
+//@   ghost pr = result at call:NewProtocol#1
+//@   ghost so = result at call:MakeSocket#1
+//@   before call:NewProtocol#1 assert callee_is("protocol/push.NewProtocol")
+//@   before call:MakeSocket#1 assert arg0 == pr
+//@   ensures isnil(result1) && result0 == so
+//@
+//@ func NewProtocol
+//@   ghost inner = result at call:NewProtocol#1
+//@   before call:NewProtocol#1 assert callee_is("protocol/xpush.NewProtocol")
+//@   ensures !isnil(result) && is_type(result, "*socket") && cast("*socket", result).Protocol == inner
+//@
+//@ func (*socket).GetOption
+//@   ghost v = result0 at call:GetOption#1
+//@   ghost e = result1 at call:GetOption#1
+//@   before call:GetOption#1 assert recv == s.Protocol && arg0 == name
+//@   ensures name != protocol.OptionRaw ==> result0 == v && result1 == e
+// ---- end generated wrapper contracts ----
